@@ -24,7 +24,7 @@ type DisputeTracker struct {
 	totTips  []tipRec
 	prev     map[uint64]DisputeInfo
 	cur      map[uint64]DisputeInfo
-	prevBal  *big.Int // dispute module balance at the end of the previous block
+	prevBal  *big.Int        // dispute module balance at the end of the previous block
 	refunded map[string]bool // disputeId|payer
 	claimed  map[string]bool // disputeId|voter
 	execAt   map[uint64]int64
